@@ -1,7 +1,7 @@
 """C19: array inputs are layout-insensitive, validated and never modified.
 
 Leg A : TLC checks InputsUntouched / LayoutInsensitive / RejectedNotProcessed on spec/Layout.tla (a
-        table of the documented input contracts of 18 entry points) for all sessions of 2 calls; the
+        table of the documented input contracts of 23 entry points) for all sessions of 2 calls; the
         deviations "writes into its input" and "consumes its option dictionary" violate them.
 Leg B : every session exported by TLC is executed for real on a fixed small data set: per call the
         verdict dictated by the specification (accept / reject) must be observed (under a watchdog:
@@ -128,6 +128,26 @@ def build(emd, ep, l, D, opts):
     if ep == 'amplitude_normalise':
         a = lay(x, 'column')
         return (lambda: U.amplitude_normalise(a)), [a]
+    if ep in ('sift_second_layer', 'mask_sift_second_layer'):
+        # six first-level columns: a 48-sample sift yields fewer IMFs than that, so no cap is needed in sift_args
+        IA = np.abs(np.c_[x, x[::-1], np.roll(x, 7), np.roll(x, 13), x ** 2, np.roll(x, 21)]).copy() if ep == 'sift_second_layer' else np.abs(np.c_[x, x[::-1]]).copy()
+        so = opts.setdefault('second_args', {'imf_opts': {'stop_method': 'fixed', 'max_iters': 3}} if ep == 'sift_second_layer' else {'nphases': 2})
+        if ep == 'sift_second_layer':
+            return (lambda: S.sift_second_layer(IA, sift_args=so)), [IA]
+        mf = np.array([.2, .1, .05])
+        return (lambda: S.mask_sift_second_layer(IA, mf, sift_args=so)), [IA, mf]
+    if ep in ('get_cycle_stat_obj', 'phase_align_obj', 'get_control_points_obj'):
+        Cobj = C.Cycles(D['ph'].copy())
+        v = lay(x, 'vector' if l == 'mismatch' else l)
+        ip = D['ph'].copy()
+        if l == 'mismatch':                      # data longer than the phase the container was built from
+            v = np.r_[v, v[:5]].copy()
+            ip = np.r_[ip, ip[:5]].copy()
+        if ep == 'get_cycle_stat_obj':
+            return (lambda: C.get_cycle_stat(Cobj, v, func=np.sum)), [v]
+        if ep == 'phase_align_obj':
+            return (lambda: C.phase_align(ip, v, cycles=Cobj, npoints=8)), [ip, v]
+        return (lambda: C.get_control_points(v, Cobj)), [v]
     raise ValueError(ep)
 
 
@@ -199,7 +219,7 @@ def replay(emd, hist, verdicts, D, ref):
 def reference(emd, D):
     ref = {}
     for ep in EPS:
-        l = 'column' if ep in ('hilberthuang_1d', 'holospectrum', 'amplitude_normalise') else 'vector'
+        l = 'column' if ep in ('hilberthuang_1d', 'holospectrum', 'amplitude_normalise', 'sift_second_layer', 'mask_sift_second_layer') else 'vector'
         r = one_call(emd, ep, l, False, sift_opts(), D)
         if r['outcome'] != 'returned':
             raise MachineryError('reference call of %s failed: %s' % (ep, r['exc']))
@@ -207,7 +227,7 @@ def reference(emd, D):
     return ref
 
 
-EPS = ['sift', 'ensemble_sift', 'complete_ensemble_sift', 'mask_sift', 'get_next_imf', 'get_next_imf_mask', 'interp_envelope',
+EPS = ['sift_second_layer', 'mask_sift_second_layer', 'get_cycle_stat_obj', 'phase_align_obj', 'get_control_points_obj', 'sift', 'ensemble_sift', 'complete_ensemble_sift', 'mask_sift', 'get_next_imf', 'get_next_imf_mask', 'interp_envelope',
        'get_padded_extrema', 'is_imf', 'frequency_transform', 'get_cycle_vector', 'hilberthuang', 'hilberthuang_1d', 'holospectrum',
        'get_cycle_stat', 'phase_align', 'bin_by_phase', 'amplitude_normalise']
 
@@ -260,7 +280,7 @@ def run():
     ctx.sample({'session': items[len(items) // 2][1], 'expected_verdicts': items[len(items) // 2][2]})
     ctx.leg('B', sessions_replayed=len(items), mismatching_sessions=nbad)
     ctx.cov['exhaustive'] = True
-    ctx.cov['rule'] = ('ALL sessions of 2 calls over 18 entry points x the layouts their contract accepts or rejects ((n,), (n,1), (n,1,1) vs (n,2), (1,n), (n,2,3); vector vs column; '
+    ctx.cov['rule'] = ('ALL sessions of 2 calls over 23 entry points x the layouts their contract accepts or rejects ((n,), (n,1), (n,1,1) vs (n,2), (1,n), (n,2,3); vector vs column; '
                        'equal vs mismatched lengths) x writable / read-only arrays x fresh / re-used option dictionaries%s; non-trivial = sessions containing a rejection, a read-only call '
                        'or a re-used option dictionary' % (' (quick: both calls to the same entry point)' if ctx.quick else ''))
     ctx.assumptions += ['"rejected" = any exception within the 20 s watchdog; a call that does not return counts as processed-not-rejected',
